@@ -602,7 +602,13 @@ def runCase (e : SExp) : Array String :=
           let o := o.put "hgain" (taxS ta ++ ">" ++ taxS td ++ "=" ++
             toString ((hs.map fun (f : Taxon × SL) => if f.1.isSuffixOf ta then 0 else lineagesAt td f.1 f.2).sum))
           -- ... and about the number of LOST genes: lineages at a that are extinct at d (theorem C06_lost_count_is_the_history)
-          o.put "hlost" (taxS ta ++ ">" ++ taxS td ++ "=" ++ toString ((hs.map fun (f : Taxon × SL) => extinctAt ta td f.1 f.2).sum))
+          let lostH := (hs.map fun (f : Taxon × SL) => extinctAt ta td f.1 f.2).sum
+          let o := o.put "hlost" (taxS ta ++ ">" ++ taxS td ++ "=" ++ toString lostH)
+          -- ... and the number of duplication events (theorem C06_number_duplications_is_the_history)
+          o.put "hndup" (taxS ta ++ ">" ++ taxS td ++ "=" ++ toString (
+            (hs.map fun (f : Taxon × SL) => reportedAt true ta td f.1 none f.2).sum + lostH +
+            (hs.map fun (f : Taxon × SL) => reportedAt false ta td f.1 none f.2).sum -
+            (hs.map fun (f : Taxon × SL) => lineagesAt ta f.1 f.2).sum))
         else o
       | _ => o) o
     o.lines.push (cid ++ "\tend\t")
